@@ -1,5 +1,5 @@
 SPECIFICATION Spec
-CONSTANTS Family = "hb"  MaxTrials = 3  MaxStep = 2  MaxVal = 1  MaxReports = 3  WithNaN = TRUE
+CONSTANTS Family = "hb"  MaxTrials = 2  MaxStep = 2  MaxVal = 1  MaxReports = 3  WithNaN = FALSE
           FinishStates = {"COMPLETE"}
 INVARIANT AlgoWithinEnvelope
 INVARIANT EnvelopeSatisfiable
